@@ -26,6 +26,10 @@ func propC09(c *Ctx) {
 	c.ruleInstanceIdentity()
 	c.ruleMemoCoverage("C09-MEMO-KEY-COVERS")
 	c.ruleC14ValidateFirst()
+	// a piece may end without a line break wherever a line may end
+	if m := c.E1Base(); m != nil {
+		c.ruleEOFAsEOL(m, c.Analysis(stackK, false))
+	}
 	// the recursion guard must refuse only a file that is really on the stack: a set keyed by anything but the
 	// file's own name refuses legal splits (two files with one base name) or misses a cycle
 	c.ruleC14CycleGuard()
